@@ -51,7 +51,11 @@ RULE = ("one transformation per case on scales of 0..6 brackets given by their a
         "not, copy, scale_tax_scales, add_bracket, add_tax_scale, and multiply_thresholds with decimals 0 / -1 on clustered "
         "thresholds so that thresholds coincide), the object being probed before the first and after every step with calc, "
         "inverse + round trip, to_average, to_average().to_marginal() and probe.add_tax_scale(object), every law checked "
-        "at every stage against the bracket lists read back from the object; thresholds multiples of 1/4 (0 "
+        "at every stage against the bracket lists read back from the object; pairs / sequences / nodes of scales with the same "
+        "number of brackets whose thresholds are large integers (2^24 .. 4e9) differing by a relative 1e-6 .. 1e-5; "
+        "populations of 65537 .. 131077 bases (int64, int32, float64, float32) on which every law is evaluated for the "
+        "whole vector, slices on both sides of 2^16 are asked again alone, and sampled elements go through the model; "
+        "thresholds multiples of 1/4 (0 "
         "included in most scales, a few negative ones), rates multiples of 1/16; bases on every threshold of "
         "every scale involved, between them, below the first and above the last; a case is non-trivial when a "
         "non-empty scale is transformed and amounts are computed; distinct as (operation, scales, options, bases)")
@@ -231,7 +235,69 @@ def _run(c):
                 "same_class": type(cp) is type(s)}
     if op == "prog":
         return run_prog(c, ints, bases)
+    if op == "big":
+        return run_big(c, ints)
     raise ValueError(op)
+
+
+BIG_DTYPES = {"i8": numpy.int64, "i4": numpy.int32, "f8": numpy.float64, "f4": numpy.float32}
+
+
+def big_bases(c):
+    """The population of a 'big' case: n bases ((i * a + off) mod m) / q, as exact integers
+    times 1/q (the array handed to calc has the dtype of the case)."""
+    i = numpy.arange(c["n"], dtype=numpy.int64)
+    return (i * c["a"] + c["off"]) % c["m"], c["q"]
+
+
+def run_big(c, ints):
+    """One calc call on a population of more than 2^16 bases per scale involved; the laws are
+    evaluated on the whole vectors (numpy, float64) and the worst element of each law is
+    reported with its exact values for the oracle."""
+    num_, q = big_bases(c)
+    dt = BIG_DTYPES[c["dtype"]]
+    big = (num_ // q).astype(dt) if q == 1 else (num_ / q).astype(dt)
+    exact = num_.astype(numpy.float64) / q
+    if not numpy.array_equal(big.astype(numpy.float64), exact):
+        raise RuntimeError("harness: population not representable in its dtype")
+    f = fr(c["factor"])
+    s1, s2 = mk(c["s1"], ints), mk(c["s2"], ints)
+    arg0 = (raw(s1), raw(s2))
+    t1, t2 = s1.calc(big), s2.calc(big)
+    laws = {}
+
+    def law(name, lhs, rhs, at=None):
+        lhs, rhs = numpy.asarray(lhs, dtype=numpy.float64), numpy.asarray(rhs, dtype=numpy.float64)
+        if lhs.shape != rhs.shape:
+            laws[name] = {"shape": [list(lhs.shape), list(rhs.shape)]}
+            return
+        dev = numpy.abs(lhs - rhs) / numpy.maximum(1.0, numpy.maximum(numpy.abs(lhs), numpy.abs(rhs)))
+        k = int(numpy.argmax(dev)) if dev.size else 0
+        laws[name] = {"index": k, "base": L.tofr(exact[k]), "lhs": L.tofr(lhs[k]), "rhs": L.tofr(rhs[k]),
+                      "n_off": int((dev > 1e-9).sum())}
+
+    comb = s1.copy()
+    comb.add_tax_scale(s2)
+    law("combine", comb.calc(big), numpy.asarray(t1, dtype=numpy.float64) + numpy.asarray(t2, dtype=numpy.float64))
+    law("scale_rates", s1.multiply_rates(float(f), inplace=False).calc(big), float(f) * numpy.asarray(t1, dtype=numpy.float64))
+    scaled = (big * dt(int(f))) if f.denominator == 1 else (exact * float(f)).astype(dt)
+    law("scale_thresholds", s1.multiply_thresholds(float(f), inplace=False).calc(scaled),
+        float(f) * numpy.asarray(t1, dtype=numpy.float64))
+    law("copy", s1.copy().calc(big), t1)
+    br = brackets(c["s1"])
+    if br and br[0][0] == 0 and all(r < 1 for _, r in br):
+        law("inverse", s1.inverse().calc(exact - numpy.asarray(t1, dtype=numpy.float64)), exact)
+    if br and all(t >= 0 for t, _ in br):
+        law("average_marginal", s1.to_average().to_marginal().calc(big), t1)
+    # the same scale asked base by base (slices of the population, among them both sides of 2^16)
+    for k0 in c["slices"]:
+        sl = slice(k0, k0 + 64)
+        law(f"slice@{k0}", numpy.asarray(t1)[sl], s1.calc(big[sl]))
+    sample = [int(k) for k in c["sample"]]
+    return {"scale": snap(s1), "sample_bases": [L.tofr(exact[k]) for k in sample],
+            "sample_amounts": [L.tofr(numpy.asarray(t1)[k]) for k in sample],
+            "dtype_of_result": str(numpy.asarray(t1).dtype), "len": int(len(t1)),
+            "args_same": (raw(s1), raw(s2)) == arg0, "laws": laws}
 
 
 def probe(cur, bases, probe_calls, ints):
@@ -338,6 +404,8 @@ def hints_of(c, o):
         return [o["res"][1]]
     if op == "avg_marg":
         return [o["res"][1], o["amounts"]]
+    if op == "big":
+        return [o["sample_amounts"]]
     if op == "prog":
         h = []
         for k, stg in enumerate(o["stages"]):
@@ -394,6 +462,10 @@ def coq_case(c):
         return f"(KAvgMarg {eps} {ccalls(c['s'])} {bases} {h})"
     if op == "copy":
         return f"(KCopy {eps} {ccalls(c['s'])} {bases} {h})"
+    if op == "big":
+        num_, q = big_bases(c)
+        sb = clist([cq(F(int(num_[k]), q)) for k in c["sample"]])
+        return f"(KCalc {eps} {ccalls(c['s1'])} {sb} {h})"
     if op == "prog":
         return (f"(KProg {eps} {ccalls(c['s'])} {ccalls(c['probe'])} {clist([cstep(st) for st in c['steps']])} "
                 f"{bases} {h})")
@@ -449,6 +521,8 @@ def obs_for_coq(c, o):
         return o["res"]
     if op == "avg_marg":
         return [o["res"], o["args"][0], o["amounts"]]
+    if op == "big":
+        return [o["scale"], o["sample_amounts"]]
     if op == "prog":
         out = []
         for k, stg in enumerate(o["stages"]):
@@ -555,6 +629,8 @@ def oracle(c, o):
                 return (f"average_marginal: base {b} is taxed {float(v0)!r} by the scale and {float(v1)!r} after "
                         f"to_average().to_marginal() = {o['res']} on {c}")
         return None
+    if op == "big":
+        return oracle_big(c, o)
     if op == "prog":
         return oracle_prog(c, o, bases)
     if op == "copy":
@@ -569,6 +645,36 @@ def oracle(c, o):
                 return f"copy: base {b} is taxed {v0} by the scale and {v1} by its copy on {c}"
         return None
     raise ValueError(op)
+
+
+def oracle_big(c, o):
+    """The laws on a population of more than 2^16 bases (worst element of each law, exact
+    values), and the sampled amounts against the definition."""
+    if o["len"] != c["n"]:
+        return f"big: calc returned {o['len']} amounts for {c['n']} bases on {c}"
+    claimed = nonneg(c["s1"]) and nonneg(c["s2"])
+    f = fr(c["factor"])
+    names = {"combine": "combine: tax of the combined scale vs sum of the taxes",
+             "scale_rates": f"scale_rates: tax after multiply_rates({f}) vs {f} x tax",
+             "scale_thresholds": f"scale_thresholds: tax on {f} x base after multiply_thresholds({f}) vs {f} x tax",
+             "copy": "copy: tax by the copy vs tax by the scale",
+             "inverse": "inverse: inverse().calc(net) vs gross",
+             "average_marginal": "average_marginal: tax after to_average().to_marginal() vs tax"}
+    for name, w in o["laws"].items():
+        if name in ("combine", "average_marginal", "scale_thresholds") and not claimed:
+            continue
+        label = names.get(name, f"vector: calc of the whole population vs calc of the slice {name}")
+        if "shape" in w:
+            return f"{label}: shapes {w['shape']} on {c}"
+        if not close(w["rhs"], w["lhs"]):
+            return (f"{label}: {float(w['lhs'])!r} vs {float(w['rhs'])!r} for base {w['base']} (element {w['index']} of "
+                    f"{c['n']} {c['dtype']} bases; {w['n_off']} elements differ) on {c}")
+    br = brackets(c["s1"])
+    for b, v in zip(o["sample_bases"], o["sample_amounts"]):
+        e = L.def_marginal_rate(br, b)
+        if not close(e, v):
+            return f"calc: base {b} in a population of {c['n']} {c['dtype']} bases is taxed {float(v)!r}, the brackets give {float(e)!r} on {c}"
+    return None
 
 
 def strictly_increasing(state):
@@ -701,6 +807,8 @@ def err_claim(c, o):
     op = c["op"]
     if op == "prog":
         return f"prog: raised {o.kind} ({o.msg[:80]}) on {c}"
+    if op == "big":
+        return f"big: raised {o.kind} ({o.msg[:80]}) on {c}"
     if op in ("combine", "combine_seq", "combine_node", "copy", "scale_ts", "to_average"):
         scs = [c.get("s"), c.get("s1"), c.get("s2"), c.get("combined")] + list(c.get("others", [])) + list(c.get("node", []))
         if all(nonneg(s) for s in scs if s is not None):
@@ -726,6 +834,8 @@ def nontrivial(c, o):
     if isinstance(o, Err):
         return False
     op = c["op"]
+    if op == "big":
+        return bool(c["s1"])
     if op == "to_marginal":
         return len(c["avg"]) >= 2
     if op == "to_average":
@@ -748,6 +858,8 @@ def classify(c, o):
     elif op == "inverse":
         br = brackets(c["s"])
         tag += ":valid" if br and br[0][0] == 0 and all(r < 1 for _, r in br) else ":unclaimed"
+    elif op == "big":
+        tag += ":" + c["dtype"]
     elif op == "prog":
         tag += ":" + ">".join(st[0] + ("!" if st[0] in ("mul_thr", "mul_rates") and st[-1] else "") for st in c["steps"])
         if not isinstance(o, Err) and any(not strictly_increasing(stg["state"]) for stg in o["stages"]):
@@ -872,6 +984,59 @@ def gen_pair(rng, layout):
     return t1, t2
 
 
+def close_large_thresholds(rng, n):
+    """n large integer thresholds and n companions that differ from them by a relative
+    1e-6 .. 1e-5 (never equal), both increasing; optionally a common leading 0."""
+    t1, t2 = [], []
+    lo = rng.choice([2**24, 10**7, 10**8, 411_360_000 // 2, 2**29])
+    for _ in range(n):
+        a = lo + rng.randrange(0, lo)
+        rel = F(rng.randrange(10, 100), 10**7)                 # 1e-6 .. 1e-5
+        d = max(1, int(a * rel))
+        b = a + d if rng.random() < 0.5 else a - d
+        t1.append(F(a))
+        t2.append(F(b))
+        lo = 2 * max(a, b)
+    if rng.random() < 0.5:
+        t1, t2 = [F(0)] + t1, [F(0)] + t2
+    return t1, t2
+
+
+def close_large_pair(rng):
+    t1, t2 = close_large_thresholds(rng, rng.randint(1, 3))
+    if rng.random() < 0.3:                                     # some thresholds really shared
+        k = rng.randrange(len(t1))
+        t2[k] = t1[k]
+        if t1 == t2:
+            t2[-1] = t2[-1] + max(1, int(t2[-1] * F(3, 10**6)))
+    s1, s2 = as_calls(rng, t1, shuffle=0), as_calls(rng, t2, shuffle=0)
+    ths = sorted(set(t1 + t2))
+    cand = list(ths) + [(a + b) / 2 for a, b in zip(ths, ths[1:])] + [ths[-1] + 1000, ths[-1] * 2, F(0), ths[0] - 1]
+    seen, bs = set(), []
+    for x in cand:
+        if x not in seen and L.representable(x):
+            seen.add(x)
+            bs.append(x)
+    rng.shuffle(bs)
+    return s1, s2, [enc(b) for b in bs[:14]]
+
+
+def gen_big(rng, cases, tier):
+    """populations of more than 2^16 bases, integer- and float-typed"""
+    for dtype in (["i8", "f8", "i4", "f4"] if tier == "quick" else ["i8", "f8", "i4", "f4"] * 3):
+        s1 = as_calls(rng, gen_thresholds(rng, rng.randint(2, 5), zero=1.0), shuffle=0)
+        s2 = gen_scale(rng, 4)
+        n = rng.choice([70001, 2**16 + 1, 2**17 + 5, 131072, 100003])
+        q = 1 if dtype in ("i8", "i4") else 4
+        m = rng.choice([997, 4001, 1201]) * q
+        a = rng.choice([7, 13, 101, 331])
+        sample = sorted(k for k in {0, 1, 2**16 - 1, 2**16, 2**16 + 1, n - 1} | {rng.randrange(n) for _ in range(8)} if k < n)
+        slices = sorted({0, 2**16 - 32, 2**16, n - 64, rng.randrange(0, n - 64)})
+        cases.append({"op": "big", "s1": s1, "s2": s2, "factor": enc(rng.choice([F(2), F(3), F(2)])), "ints": rng.random() < 0.3,
+                      "n": n, "dtype": dtype, "a": a, "off": rng.randrange(0, 50), "m": m, "q": q,
+                      "sample": sample, "slices": slices})
+
+
 def gen_combine(rng, cases, n_random, grid):
     # every relative layout of two scales over a 4-point grid (and 5-point in larger tiers)
     pts = [F(0), F(2), F(5), F(9), F(12)][:grid]
@@ -888,6 +1053,10 @@ def gen_combine(rng, cases, n_random, grid):
         s1, s2 = as_calls(rng, t1, wild), as_calls(rng, t2, wild)
         cases.append({"op": "combine", "layout": layout, "s1": s1, "s2": s2, "ints": rng.random() < 0.3,
                       "bases": bases_for(rng, [s1, s2])})
+    # large thresholds that are close (relative 1e-6 .. 1e-5) but different, same number of brackets
+    for i in range(max(12, n_random // 12)):
+        s1, s2, bs = close_large_pair(rng)
+        cases.append({"op": "combine", "layout": "close_large", "s1": s1, "s2": s2, "ints": i % 2 == 0, "bases": bs})
     # negative thresholds (a high threshold equal to 0 is "falsy"): model vs implementation only
     for _ in range(max(6, n_random // 25)):
         s1, s2 = gen_scale(rng, 4, neg=0.7), gen_scale(rng, 4, neg=0.7)
@@ -964,6 +1133,18 @@ def generate(rng, tier):
             s = gen_scale(rng, 4, nmin=0, neg=0.6)
         cases.append({"op": "avg_marg", "s": s, "ints": rng.random() < 0.3, "bases": bases_for(rng, [s])})
     gen_programs(rng, cases, 320 * scale_n)
+    gen_big(rng, cases, tier)
+    # sequences / nodes of scales with close large thresholds (the receiver has brackets already)
+    for _ in range(8 * scale_n):
+        t1, t2 = close_large_thresholds(rng, rng.randint(1, 3))
+        scs = [as_calls(rng, t, shuffle=0) for t in (t1, t2, t1 if rng.random() < 0.5 else t2)]
+        rng.shuffle(scs)
+        ths = sorted(set(t1 + t2))
+        bs = [enc(b) for b in ths + [(x + y) / 2 for x, y in zip(ths, ths[1:])] + [ths[-1] * 2] if L.representable(b)][:12]
+        if rng.random() < 0.5:
+            cases.append({"op": "combine_seq", "s": scs[0], "others": scs[1:], "ints": rng.random() < 0.5, "bases": bs})
+        else:
+            cases.append({"op": "combine_node", "combined": None, "node": scs, "ints": rng.random() < 0.5, "bases": bs})
     for _ in range(100 * scale_n):
         s = gen_scale(rng, 6, nmin=0 if rng.random() < 0.1 else 1, neg=0.1, wild=0.1)
         cases.append({"op": "copy", "s": s, "ints": rng.random() < 0.3, "bases": bases_for(rng, [s])})
